@@ -26,10 +26,13 @@ const (
 	nameSyntax             // space, percent-escape look-alike, / : # ? & = + * in names and scopes
 	nameUnicodeFold        // k vs KELVIN SIGN (equal under Unicode case folding), non-ASCII case pair, rune beyond the BMP
 	nameLongSpace          // a 300-byte name, names that differ in leading/trailing space; 300-byte scopes
+	nameNoScopes           // plain names; every scheme requires the empty scope list (zero-length collection)
+	nameZeroPrincipals     // plain names; the principals are the non-nil zero values "", 0 and false
+	nameRejWithPrincipal   // plain names; a rejecting scheme returns a principal together with its error
 	nNaming
 )
 
-var namingName = [nNaming]string{"plain", "case-only", "prefixes", "punctuation", "syntax", "unicode-fold", "long-and-space"}
+var namingName = [nNaming]string{"plain", "case-only", "prefixes", "punctuation", "syntax", "unicode-fold", "long-and-space", "no-scopes", "zero-value-principals", "rejection-carries-principal"}
 
 var long300 = strings.Repeat("n", 300)
 
@@ -41,6 +44,9 @@ var schemeNames = [nNaming][nS]string{
 	{"a b", "%41", "a/b:c#?&=+*"},
 	{"k", "\u212a", "\u00c9"},
 	{long300, " n", "n "},
+	{"k1", "k2", "k3"},
+	{"k1", "k2", "k3"},
+	{"k1", "k2", "k3"},
 }
 
 // own scope stem of scheme s and the "common" scope of k2 / k3 (k1 has none)
@@ -52,6 +58,9 @@ var scopeStem = [nNaming][nS]string{
 	{"%41", "a+b", "a&b=c,d;e"},
 	{"\u00e9", "\u00c9", "\U0001d11e"},
 	{long300 + "1", long300 + "2", long300 + "3"},
+	{"", "", ""}, // no scopes at all
+	{"k1", "k2", "k3"},
+	{"k1", "k2", "k3"},
 }
 var commonScope = [nNaming][nS]string{
 	{"", "r", "r"},
@@ -60,6 +69,9 @@ var commonScope = [nNaming][nS]string{
 	{"", "r-w", "r-w"},
 	{"", "*", "*"},
 	{"", "k", "\u212a"},
+	{"", "r", "r"},
+	{"", "", ""},
+	{"", "r", "r"},
 	{"", "r", "r"},
 }
 
@@ -339,6 +351,9 @@ func ownScope(naming uint8, pos, s int) string {
 }
 
 func scopesOf(naming uint8, pos, s int) []string {
+	if scopeStem[naming][s] == "" {
+		return []string{}
+	}
 	own := ownScope(naming, pos, s)
 	if c := commonScope[naming][s]; c != "" {
 		return []string{own, c}
@@ -351,6 +366,9 @@ func scopesOf(naming uint8, pos, s int) []string {
 // scheme is asked for the scopes that the alternative at position 0 declares for it
 // (byte-exact comparison: scopes are opaque strings)
 func granted(naming uint8, s int, scope string) bool {
+	if scopeStem[naming][s] == "" {
+		return false // nothing is declared, nothing is granted (and nothing is required)
+	}
 	return (commonScope[naming][s] != "" && scope == commonScope[naming][s]) || scope == ownScope(naming, 0, s)
 }
 
@@ -396,7 +414,27 @@ const (
 	eSCOPE // tag tScope1+s
 )
 
-func effective(out uint8, pos int) int {
+// oksAccepted[naming][pos][s]: a scope-limited credential of scheme s is accepted when the scheme is asked for the
+// scopes it has at list position pos (every required scope granted; vacuously so when none is required)
+var oksAccepted [nNaming][3][nS]bool
+
+func init() {
+	for nm := uint8(0); nm < nNaming; nm++ {
+		for pos := 0; pos < 3; pos++ {
+			for s := 0; s < nS; s++ {
+				ok := true
+				for _, sc := range scopesOf(nm, pos, s) {
+					if !granted(nm, s, sc) {
+						ok = false
+					}
+				}
+				oksAccepted[nm][pos][s] = ok
+			}
+		}
+	}
+}
+
+func effective(naming uint8, s int, out uint8, pos int) int {
 	switch out {
 	case oNA:
 		return eNA
@@ -407,7 +445,7 @@ func effective(out uint8, pos int) int {
 	case oREJ:
 		return eREJ
 	case oOKS:
-		if pos == 0 { // every scope of position 0 is granted; later positions require <scheme>.<pos>, not granted
+		if oksAccepted[naming][pos][s] {
 			return eOK
 		}
 		return eSCOPE
@@ -473,7 +511,7 @@ func reference(k kase) allowed {
 				failed = true // a scheme nobody can consult cannot accept anything
 				continue
 			}
-			switch effective(k.out[s], i) {
+			switch effective(k.naming, s, k.out[s], i) {
 			case eOK:
 			case eNA, eNIL:
 				failed = true
@@ -685,7 +723,7 @@ func defectPredict(k kase, allowNil, allowUnreg bool) (feature string, pred obs,
 				}
 				continue
 			}
-			switch effective(k.out[s], i) {
+			switch effective(k.naming, s, k.out[s], i) {
 			case eOK:
 				last = s + 1
 			case eNIL:
